@@ -7,6 +7,8 @@ CONSTANTS B = 4
   HoleHi = 57343
   Repl = 65533
   CHUNK = 2
+  STACK = 7
+  CHUNK_STACK = TRUE
   TU_FROM_START = TRUE
   NOTDEF_OWN = TRUE
   Mode = "map"
@@ -20,5 +22,5 @@ CONSTANTS B = 4
   WideSpaces = {}
   NotdefOn = TRUE
   MaxRect = 0
-INVARIANTS LookupOK AllOK EmbedOK CompressOK
+INVARIANTS LookupOK AllOK EmbedOK CompressOK ReadableOK
 CHECK_DEADLOCK FALSE
